@@ -260,6 +260,7 @@ def run(R, tier):
     two_algebras(R, rng, tier)
     re_registration(R, rng, tier)
     symbolic_calls(R, rng, tier)
+    symbolic_histories(R, rng, tier)
     large_algebra_histories(R, rng, tier)
     # ---- one thread held inside code generation while another makes the same call ----
     for ti in range(6 if tier == 'quick' else 60):
@@ -603,6 +604,58 @@ def large_algebra_histories(R, rng, tier):
                             {'algebra': spec, 'history': done + [name], 'operands': operands, 'got': str(got)[:300], 'fresh': str(want)[:300]},
                             f'{name} on {operands} after {done} in Algebra({algs.describe(spec)}) returned {str(got)[:200]}, a fresh algebra returns {str(want)[:200]}')
             done.append(name)
+
+
+def symbolic_histories(R, rng, tier):
+    """Symbolic operands on an algebra with a history (successful calls, calls whose code generation fails, numeric calls): every
+    symbolic result is IDENTICAL - same stored blades, same expressions - to what a fresh algebra running the same code returns."""
+    import sympy
+    for it in range(6 if tier == 'quick' else 60):
+        d = rng.choice((2, 3))
+        sig = [0] + [rng.choice((1, -1)) for _ in range(d - 1)] if it % 2 == 0 else [rng.choice((1, -1)) for _ in range(d)]
+        spec = {'sig': sig}
+        def build(A):
+            t_, a_, b_ = sympy.symbols('t a b')
+            R_ = A.multivector(keys=(0, 3), values=[sympy.cos(t_), sympy.sin(t_)])
+            v_ = A.multivector(keys=(1, 2), values=[a_, b_])
+            w_ = A.multivector(keys=(2, 1), values=[a_ + b_, a_ - b_])
+            return R_, v_, w_
+        def queries(A):
+            R_, v_, w_ = build(A)
+            out = []
+            for label, f in (('R * ~R', lambda: R_ * ~R_), ('R.normsq()', lambda: R_.normsq()), ('(v + w) - (w + v)', lambda: (v_ + w_) - (w_ + v_)),
+                             ('(v*w) - (v|w) - (v^w)', lambda: (v_ * w_) - (v_ | w_) - (v_ ^ w_)), ('R >> v', lambda: R_ >> v_), ('v ^ v', lambda: v_ ^ v_)):
+                try:
+                    r_ = f()
+                    out.append((label, ('ok', tuple(int(k_) for k_ in r_.keys()), tuple(sympy.srepr(sympy.sympify(x_)) for x_ in r_.values()))))
+                except Exception as e:  # noqa
+                    out.append((label, ('err', type(e).__name__)))
+            return out
+        used = algs.make_impl(spec)
+        canon = list(used.canon2bin.values())
+        events = []
+        for _ in range(rng.randint(2, 4)):
+            ev = rng.choice(['failing-polarity', 'failing-division', 'numeric-product', 'failing-registered', 'numeric-inverse'])
+            events.append(ev)
+            x = oc.make_mv(used, rng.sample(canon, 2), [2.0, 3.0])
+            try:
+                if ev == 'failing-polarity': x.dual(kind='polarity')
+                elif ev == 'failing-division': x / oc.make_mv(used, [1], [1.0])
+                elif ev == 'numeric-product': x * x
+                elif ev == 'numeric-inverse': oc.make_mv(used, [0, 3], [2.0, 1.0]).inv()
+                else:
+                    def boom(u): raise ValueError('user function fails while it is recorded')
+                    used.register(symbolic=True)(boom)(x)
+            except Exception:  # noqa
+                pass
+        got, ref = queries(used), queries(algs.make_impl(spec))
+        for (label, g_), (_, w_) in zip(got, ref):
+            R.count('history=symbolic-structural'); R.case(('sym-struct', it, label, tuple(events)), True)
+            if g_ != w_:
+                R.violation({'clause': 'history', 'via': 'symbolic-structural'},
+                            {'algebra': spec, 'events': events, 'query': label, 'got': str(g_)[:300], 'fresh': str(w_)[:300]},
+                            f'{label} with symbolic operands after the events {events} on Algebra({algs.describe(spec)}) returns {str(g_)[:250]}, a fresh algebra returns {str(w_)[:250]}')
+                break
 
 
 def symbolic_calls(R, rng, tier):
